@@ -91,8 +91,9 @@ deriving Repr, Inhabited
 def isSep (c : Nat) : Bool := c == c_pipe || c == c_eq
 
 /-- `cfg_getopt_secidx(cfg, name, index)`; `wantIndex` = "index != NULL".  `fuel` bounds the
-number of path components. -/
-def secidxLoop (root : Cfg) (wantIndex : Bool) : Nat → Cfg → List (Nat × Nat) → Option OptRef → Int → Bytes → PathOut
+number of path components.  Diagnostics are the ones issued when the start context does not have
+IGNORE_UNKNOWN (see `getoptSecidx`). -/
+def secidxLoop (wantIndex : Bool) : Nat → Cfg → List (Nat × Nat) → Option OptRef → Int → Bytes → PathOut
   | 0, _, _, _, _, _ => ⟨none, -1, []⟩
   | fuel + 1, sec, steps, lastOpt, lastIdx, name =>
     let finish : PathOut :=
@@ -100,7 +101,7 @@ def secidxLoop (root : Cfg) (wantIndex : Bool) : Nat → Cfg → List (Nat × Na
       else match getoptLeaf sec name with
         | some i => ⟨some ⟨steps, i⟩, -1, []⟩
         | none =>
-          ⟨none, -1, if !root.flags.ignoreUnknown && !sec.flags.keystrval then [.noSuchOption] else []⟩
+          ⟨none, -1, if !sec.flags.keystrval then [.noSuchOption] else []⟩
     if name.isEmpty then finish
     else
       let secname := name.takeWhile (fun c => !isSep c)
@@ -142,21 +143,24 @@ def secidxLoop (root : Cfg) (wantIndex : Bool) : Nat → Cfg → List (Nat × Na
         match sec'? with
         | none =>
           let ds : List DiagCls :=
-            if root.flags.ignoreUnknown then []
-            else match opt? with
-              | some (_, o) => if !o.flags.multi then [.noSuchOption] else [.noSubSection]
-              | none => [.noSubSection]
+            match opt? with
+            | some (_, o) => if !o.flags.multi then [.noSuchOption] else [.noSubSection]
+            | none => [.noSubSection]
           ⟨none, i, ds⟩
         | some (oi, ii, s) =>
           let name1 := name.drop len2
           let seps := (name1.takeWhile (· == c_pipe)).length
           if wantIndex && seps > 0 && (name1.drop seps).isEmpty then ⟨none, i, []⟩
           else
-            secidxLoop root wantIndex fuel s (steps ++ [(oi, ii)]) (some ⟨steps, oi⟩) i (name1.drop seps)
+            secidxLoop wantIndex fuel s (steps ++ [(oi, ii)]) (some ⟨steps, oi⟩) i (name1.drop seps)
 
+/-- the resolver proper reports what it would say; whether anything is said at all is decided by
+the flags of the context the lookup started from (`cfg->flags & CFGF_IGNORE_UNKNOWN`) -/
 def getoptSecidx (c : Cfg) (name : Bytes) (wantIndex : Bool) : PathOut :=
   if name.isEmpty then ⟨none, -1, []⟩
-  else secidxLoop c wantIndex (name.length + 1) c [] none (-1) name
+  else
+    let r := secidxLoop wantIndex (name.length + 1) c [] none (-1) name
+    if c.flags.ignoreUnknown then { r with diags := [] } else r
 
 /-- `cfg_getopt` -/
 def getoptPath (c : Cfg) (name : Bytes) : PathOut := getoptSecidx c name false
